@@ -266,7 +266,7 @@ func printDiff(a, b string, metadata []jd.Metadata) {
 		errorAndExit(err)
 	}
 	if *output == "" {
-		fmt.Print(str)
+		printOutput(str)
 	} else {
 		err := ioutil.WriteFile(*output, []byte(str), 0644)
 		if err != nil {
@@ -285,7 +285,7 @@ func printDiffV2(a, b string, options []v2.Option) {
 		errorAndExit(err)
 	}
 	if *output == "" {
-		fmt.Print(str)
+		printOutput(str)
 	} else {
 		err := ioutil.WriteFile(*output, []byte(str), 0644)
 		if err != nil {
@@ -308,7 +308,7 @@ func printGitDiffDriver(options []v2.Option) error {
 	if err != nil {
 		return err
 	}
-	fmt.Print(str)
+	printOutput(str)
 	os.Exit(0)
 	return nil
 }
@@ -461,7 +461,7 @@ func printPatch(p, a string, metadata []jd.Metadata) {
 		out = bNode.Json(metadata...)
 	}
 	if *output == "" {
-		fmt.Print(out)
+		printOutput(out)
 	} else {
 		err := ioutil.WriteFile(*output, []byte(out), 0644)
 		if err != nil {
@@ -507,7 +507,7 @@ func printPatchV2(p, a string, options []v2.Option) {
 		out = bNode.Json(options...)
 	}
 	if *output == "" {
-		fmt.Print(out)
+		printOutput(out)
 	} else {
 		err := ioutil.WriteFile(*output, []byte(out), 0644)
 		if err != nil {
@@ -566,7 +566,7 @@ func printTranslation(a string) {
 		errorfAndExit("unsupported translation: %q", *translate)
 	}
 	if *output == "" {
-		fmt.Print(out)
+		printOutput(out)
 	} else {
 		err := ioutil.WriteFile(*output, []byte(out), 0644)
 		if err != nil {
@@ -625,7 +625,7 @@ func printTranslationV2(a string) {
 		errorfAndExit("unsupported translation: %q", *translate)
 	}
 	if *output == "" {
-		fmt.Print(out)
+		printOutput(out)
 	} else {
 		err := ioutil.WriteFile(*output, []byte(out), 0644)
 		if err != nil {
@@ -686,4 +686,12 @@ func runAsGitHubAction() {
 	file.WriteString(delimiter + "\n")
 	file.WriteString("exit_code=" + strconv.Itoa(cmd.ProcessState.ExitCode()) + "\n")
 	os.Exit(0)
+}
+
+// printOutput writes a result to standard output. A write that fails (disk
+// full, stdout closed) is an error like any other: exit status 2.
+func printOutput(s string) {
+	if _, err := fmt.Print(s); err != nil {
+		errorAndExit(err)
+	}
 }
